@@ -205,6 +205,7 @@ def check(prog, ctx, only_c04=False):
                            line=st.line)
     ctx.notes.append('exit sites outside table functions: %d' % nsites)
     ctx.sub('short_containers', short_containers, prog, ctx, wrappers)
+    ctx.sub('paired_lists', paired_lists, prog, ctx, wrappers)
     elementwise(prog, ctx, E, wrappers)
     delegation(prog, ctx, E, wrappers)
     domain_dependency(prog, ctx, E)
@@ -251,6 +252,76 @@ def find_loop(f):
     if f[0] == 'not':
         return find_loop(f[1])
     return None
+
+
+
+def top_level_assignments(fn):
+    """name -> rhs for members (this->m) and locals assigned exactly once in `fn`, by a plain `=` that is a top-level
+    statement of the body (so it is executed once, unconditionally, before everything below it)."""
+    count, top = {}, {}
+    for st in walk_stmts(fn.body):
+        for e_ in stmt_exprs(st):
+            for n in walk_expr(e_, into_lambdas=True):
+                if n.get('k') == 'Bin' and n.get('op') in ('=', '+=', '-=', '*=', '/=') or n.get('k') == 'Un' and n.get('op') in ('++', '--'):
+                    t = strip(n['lhs'] if n['k'] == 'Bin' else n['e'])
+                    nm = t.get('name') if t.get('k') == 'Ref' or (t.get('k') == 'Member' and strip(t['base']).get('k') == 'This') else None
+                    if nm:
+                        count[nm] = count.get(nm, 0) + 1
+    if fn.body.get('k') == 'Compound':
+        for st in fn.body['body']:
+            if st['k'] == 'Expr':
+                e0 = strip(st['e'])
+                if e0.get('k') == 'Bin' and e0.get('op') == '=':
+                    t = strip(e0['lhs'])
+                    nm = t.get('name') if t.get('k') == 'Ref' and t.get('rk') == 'local' or (t.get('k') == 'Member' and strip(t['base']).get('k') == 'This') else None
+                    if nm and count.get(nm) == 1:
+                        top[nm] = (e0['rhs'], st.get('l') or 0)
+    return top
+
+
+def resolve_scalar(e, g, top, depth=0):
+    """See through single-definition locals (GuardScan.subst) and once-assigned members/locals (top_level_assignments)."""
+    e = strip_casts(g.subst(e))
+    if depth < 6 and (e.get('k') == 'Ref' or (e.get('k') == 'Member' and strip(e['base']).get('k') == 'This')) and e.get('name') in top:
+        return resolve_scalar(top[e['name']][0], g, top, depth + 1)
+    return e
+
+
+def size_of_param(e, pnames):
+    """`p.size()` of a parameter p -> p, else None"""
+    e = strip_casts(e)
+    if e.get('k') == 'Call' and e.get('kind') == 'method' and (e.get('callee') or {}).get('name') == 'size' and not e.get('args'):
+        o = strip(e['obj'])
+        if o.get('k') == 'Ref' and o.get('rk') == 'param' and o.get('name') in pnames:
+            return o['name']
+    return None
+
+
+def sized_like(fn, g, top, pnames):
+    """containers (members or locals) whose length is set once, at the top level of `fn`, to the length of a parameter:
+    V.resize(E) / std::vector<T> V(E) with E resolving to p.size()  ->  {V: (p, line)}"""
+    out = {}
+    if fn.body.get('k') != 'Compound':
+        return out
+    nres = {}
+    for st in walk_stmts(fn.body):
+        for e_ in stmt_exprs(st):
+            for n in walk_expr(e_, into_lambdas=True):
+                if n.get('k') == 'Call' and n.get('kind') == 'method' and (n.get('callee') or {}).get('name') in ('resize', 'push_back', 'emplace_back', 'clear', 'pop_back', 'erase', 'insert', 'assign'):
+                    o = strip(n['obj'])
+                    if o.get('name'):
+                        nres[o['name']] = nres.get(o['name'], 0) + 1
+    for st in fn.body['body']:
+        if st['k'] == 'Expr':
+            e0 = strip(st['e'])
+            if e0.get('k') == 'Call' and e0.get('kind') == 'method' and (e0.get('callee') or {}).get('name') == 'resize' and len(e0.get('args', [])) >= 1:
+                o = strip(e0['obj'])
+                nm = o.get('name') if o.get('k') == 'Ref' or (o.get('k') == 'Member' and strip(o['base']).get('k') == 'This') else None
+                if nm and nres.get(nm) == 1:
+                    p_ = size_of_param(resolve_scalar(e0['args'][0], g, top), pnames)
+                    if p_:
+                        out[nm] = (p_, st.get('l') or 0)
+    return out
 
 
 def short_containers(prog, ctx, wrappers):
@@ -314,9 +385,21 @@ def short_containers(prog, ctx, wrappers):
         pn = [p['name'] for p in fn.params if p['ty'].startswith('std::vector')]
         if not pn:
             continue
-        pred = short_access(pn)
-        sites = []          # (node, reach or None, statement root expr or None)
         g = G.GuardScan(prog, fn, wrappers)
+        top = top_level_assignments(fn)
+        like = sized_like(fn, g, top, pn)
+        base_pred = short_access(pn)
+
+        def like_name(n):
+            """V[k] with V a member/local whose length was set to p.size() above the read -> V"""
+            if n.get('k') == 'Index' and strip_casts(n['idx']).get('k') == 'Lit' and strip_casts(n['idx']).get('lk') == 'int':
+                b_ = strip(n['base'])
+                if (b_.get('k') == 'Ref' and b_.get('rk') == 'local' or b_.get('k') == 'Member' and strip(b_['base']).get('k') == 'This') \
+                        and b_.get('name') in like and (n.get('l') or 0) > like[b_['name']][1]:
+                    return b_['name']
+            return None
+        pred = lambda n: base_pred(n) or like_name(n) is not None
+        sites = []          # (node, reach or None, statement root expr or None)
         g.use_pred = pred
         g.run()
         for node, reach, loops in g.uses:
@@ -329,6 +412,9 @@ def short_containers(prog, ctx, wrappers):
         for node, reach, loops in sites:
             b = strip(node['base'])['name'] if node.get('k') == 'Index' else strip(node['obj'])['name']
             k = int(strip_casts(node['idx'])['v']) if node.get('k') == 'Index' else 0
+            via = None
+            if like_name(node) is not None:
+                via, b = b, like[b][0]
             # the statement expression that contains the node (for the short-circuit operands)
             root = None
             for s_ in walk_stmts(fn.body):
@@ -339,7 +425,8 @@ def short_containers(prog, ctx, wrappers):
                 if i.get('init') is not None and any(x is node for x in walk_expr(i['init'])):
                     root = i['init']
             ops = operand_guards(root, node) if root is not None else []
-            inst = '%s:%s[%s]' % (fn.q.replace(L, '') + ('/%d' % len(fn.params)), b, k if node.get('k') == 'Index' else (node['callee']['name']))
+            inst = '%s:%s[%s]' % (fn.q.replace(L, '') + ('/%d' % len(fn.params)), b if via is None else '%s~%s' % (via, b),
+                                  k if node.get('k') == 'Index' else (node['callee']['name']))
             if inst in seen_inst:
                 inst += '@%s' % node.get('l')
             verdict = []
@@ -374,6 +461,23 @@ def short_containers(prog, ctx, wrappers):
         if not pn:
             continue
 
+        g_r = G.GuardScan(prog, fn, wrappers)
+        top_r = top_level_assignments(fn)
+        # members/locals that are a copy of a table parameter (assigned once, at the top level): reads of the copy are reads of the table
+        copies = {}
+        for nm_, (rhs_, l_) in top_r.items():
+            r0 = strip(rhs_)
+            if r0.get('k') == 'Ref' and r0.get('rk') == 'param' and r0.get('name') in pn:
+                copies[nm_] = (r0['name'], l_)
+
+        def table_of(base, line):
+            if base.get('k') == 'Ref' and base.get('rk') == 'param' and base.get('name') in pn:
+                return base['name']
+            if (base.get('k') == 'Ref' and base.get('rk') == 'local' or base.get('k') == 'Member' and strip(base['base']).get('k') == 'This') \
+                    and base.get('name') in copies and (line or 0) > copies[base['name']][1]:
+                return copies[base['name']][0]
+            return None
+
         def rec(s_, loops, conds):
             if s_ is None:
                 return
@@ -400,8 +504,10 @@ def short_containers(prog, ctx, wrappers):
                 if inner.get('k') != 'Index':
                     continue
                 base = strip(inner['base'])
-                if not (base.get('k') == 'Ref' and base.get('rk') == 'param' and base.get('name') in pn):
+                tname = table_of(base, n.get('l'))
+                if tname is None:
                     continue
+                base = {'name': tname}
                 c_ix = strip_casts(n['idx'])
                 if c_ix.get('k') != 'Ref':
                     continue
@@ -410,7 +516,12 @@ def short_containers(prog, ctx, wrappers):
                     init = lp.get('init')
                     if not (init and init['k'] == 'Decl' and len(init['decls']) == 1 and init['decls'][0]['id'] == c_ix.get('id')):
                         continue
-                    bound = [m for m in walk_expr(lp['cond']) if m.get('k') == 'Call' and m.get('kind') == 'method' and (m.get('callee') or {}).get('name') == 'size'
+                    cnd_ = lp['cond']
+                    c0_ = strip_casts(cnd_)
+                    if c0_.get('k') == 'Bin' and c0_.get('op') in ('<', '<=', '!='):
+                        # the bound seen through once-assigned members/locals (ndim = pp[0].size())
+                        cnd_ = resolve_scalar(c0_['rhs'], g_r, top_r)
+                    bound = [m for m in walk_expr(cnd_) if m.get('k') == 'Call' and m.get('kind') == 'method' and (m.get('callee') or {}).get('name') == 'size'
                              and strip(m['obj']).get('k') == 'Index' and strip(strip(m['obj'])['base']).get('name') == base['name']]
                     if len(bound) != 1:
                         continue
@@ -427,6 +538,8 @@ def short_containers(prog, ctx, wrappers):
                         for flag in uniform_flags(fn, base['name'], n.get('l') or 0):
                             if any(flag in show(lp2['cond']) for lp2 in loops):
                                 guarded = True
+                        if not guarded and uniform_exit(fn, g_r, base['name'], r_bound, n.get('l') or 0, top_r):
+                            guarded = True
                     found.append((n, base['name'], r_here, r_bound, guarded))
         rec(fn.body, [], [])
         # a literal column read p[r][k] needs a test of the width of the rows of p (any row-length test of p that leads to the
@@ -452,12 +565,167 @@ def short_containers(prog, ctx, wrappers):
                     ctx.decide(R, inst_, fn, ok_, 'column %s of the rows of `%s` is read after a test of the row lengths' % (kcol, b_['name']),
                                '%s is read although nothing tests the length of the rows of `%s`: a ragged or transposed table is read out of bounds' % (show(e_)[:40], b_['name']),
                                witness={'reproducer': 'Integrate_Gauss_Legendre({1.0, 1.0}, {{0.2,0.5},{}}) reads element 1 of an empty row'} if not ok_ else None, line=e_.get('l'))
-        for n, bn, r_here, r_bound, guarded in found:
+        uniq = {}
+        for ent in found:
+            key_ = (ent[1], ent[2])
+            if key_ not in uniq or (uniq[key_][4] and not ent[4]):
+                uniq[key_] = ent
+        for n, bn, r_here, r_bound, guarded in uniq.values():
             ctx.decide(R, '%s:%s[%s][.]' % (fn.q.replace(L, '') + '/%d' % len(fn.params), bn, r_here), fn, guarded,
                        'the read of row %s is preceded by a test of that row\'s own length' % r_here,
                        '%s is read with a column index that runs up to the length of row %s, but nothing compares the length of row %s with it: a ragged table '
                        '(row %s shorter than row %s) is read out of bounds' % (show(n)[:50], r_bound, r_here, r_here, r_bound),
                        witness={'reproducer': 'Matrix({{Matrix(2,2)},{Matrix(1,2),Matrix(1,3)}}): block_matrices[0][1] does not exist'}, line=n.get('l'))
+
+
+def paired_lists(prog, ctx, wrappers):
+    """C10.f, mismatched list lengths: q[i + c] is read for a counter i whose loop runs up to a bound computed from the length of
+    ANOTHER caller-supplied vector p.  The part of the read's reach condition that lies outside the loop is evaluated on the
+    shapes len(p) = 2, 3 and len(q) < len(p); with the counter at its last value (conditions inside the loop evaluated there) the
+    index is compared with len(q).  A read that happens past the end of the shorter list is out of bounds."""
+    R = 'C10.f'
+    nsites = 0
+    fns = prog.repo_functions() + [f for f in prog.all_functions() if f.is_inst and 'List_Manipulations' in f.file]
+    for fn in sorted(set(fns), key=lambda f: (f.file, f.line)):
+        if fn.body is None or fn.is_lambda:
+            continue
+        pn = [p['name'] for p in fn.params if p['ty'].startswith('std::vector') and not p['ty'].startswith('std::vector<std::vector')]
+        if len(pn) < 2:
+            continue
+        g = G.GuardScan(prog, fn, wrappers)
+        top = top_level_assignments(fn)
+
+        def pred(n):
+            if n.get('k') != 'Index':
+                return False
+            b = strip(n['base'])
+            return b.get('k') == 'Ref' and b.get('rk') == 'param' and b.get('name') in pn and strip_casts(n['idx']).get('k') != 'Lit'
+        g.use_pred = pred
+        g.run()
+        seen = set()
+        for node, reach, loops in g.uses:
+            q = strip(node['base'])['name']
+            # the enclosing counted loop whose counter occurs in the index
+            for lp in reversed(list(loops)):
+                init = lp.get('init') if lp['k'] == 'For' else None
+                if not (init and init['k'] == 'Decl' and len(init['decls']) == 1 and init['decls'][0].get('init') is not None and lp.get('cond') is not None):
+                    continue
+                cid, cname = init['decls'][0]['id'], init['decls'][0]['name']
+                if not any(m.get('k') == 'Ref' and m.get('id') == cid for m in walk_expr(node['idx'])):
+                    continue
+                c0 = strip_casts(lp['cond'])
+                if not (c0.get('k') == 'Bin' and c0.get('op') in ('<', '<=', '!=') and strip_casts(c0['lhs']).get('id') == cid):
+                    break
+                bound = resolve_scalar(c0['rhs'], g, top)
+                # resolve nested names inside the bound, too (ndim + 1 with ndim = p.size())
+                def deep(e, d=0):
+                    e = resolve_scalar(e, g, top)
+                    if d < 4 and e.get('k') == 'Bin':
+                        e = dict(e); e['lhs'] = deep(e['lhs'], d + 1); e['rhs'] = deep(e['rhs'], d + 1)
+                    elif d < 4 and e.get('k') == 'Cast':
+                        e = dict(e); e['e'] = deep(e['e'], d + 1)
+                    return e
+                bound = deep(c0['rhs'])
+                others = sorted({size_of_param(m, pn) for m in walk_expr(bound)} - {None})
+                if not others or q in others:
+                    break
+                p = others[0]
+                inst = '%s:%s[%s]~%s' % (fn.q.replace(L, '') + '/%d' % len(fn.params), q, show(strip_casts(node['idx'])).replace(' ', ''), p)
+                if inst in seen:
+                    break
+                seen.add(inst)
+                nsites += 1
+                # the reach outside the loops, and the conditions inside them
+                def split(f):
+                    if f[0] == 'and':
+                        o_, i_ = [], []
+                        for x in f[1]:
+                            a_, b_ = split(x)
+                            o_ += a_; i_ += b_
+                        return o_, i_
+                    if f[0] == 'loop':
+                        a_, b_ = split(f[2])
+                        return [], a_ + b_
+                    return [f], []
+                outer, inner = split(reach)
+                bad, undec = None, None
+                for lp_, lq_ in ((2, 0), (2, 1), (3, 1), (3, 2)):
+                    row = {'len(%s)' % p: lp_, 'len(%s)' % q: lq_}
+                    for o_ in pn:
+                        row.setdefault('len(%s)' % o_, lp_)
+                    try:
+                        ce = G.CEval(prog, row, None, {})
+                        if not all(ce.formula(x) for x in outer):
+                            continue
+                        hi = ce.ev(bound)
+                        start = ce.ev(init['decls'][0]['init'])
+                        last = hi - 1 if c0['op'] in ('<', '!=') else hi
+                        if last < start:
+                            continue
+                        row2 = dict(row); row2[cname] = last
+                        ce2 = G.CEval(prog, row2, None, {})
+                        live = True
+                        for x in inner:
+                            try:
+                                if not ce2.formula(x):
+                                    live = False
+                            except (Undecided, KeyError, TypeError):
+                                pass        # a condition on data: the read may happen
+                        if live and ce2.ev(g.subst(node['idx'])) >= lq_:
+                            bad = (lp_, lq_, last, ce2.ev(g.subst(node['idx'])))
+                            break
+                    except (Undecided, KeyError, TypeError) as ex:
+                        undec = str(ex)
+                        break
+                if undec is not None:
+                    ctx.notes.append('C10.f: %s not judged (%s)' % (inst, undec[:80]))
+                    break
+                ctx.decide(R, inst, fn, bad is None, '%s is reached only when `%s` is at least as long as the loop over `%s` requires' % (show(node)[:40], q, p),
+                           '%s is read up to index %s although `%s` may have only %s element(s) when `%s` has %s: nothing compares the two lengths (out-of-bounds read)'
+                           % ((show(node)[:40], bad[3], q, bad[1], p, bad[0]) if bad else ('',) * 6),
+                           witness={'lengths': {p: bad[0], q: bad[1]}, 'counter': bad[2], 'index': bad[3]} if bad else None, line=node.get('l'))
+                break
+    ctx.notes.append('C10.f: %d reads of one list under a loop over another list judged on concrete lengths' % nsites)
+
+
+def uniform_exit(fn, g, pname, r_ref, before_line, top=None):
+    """A top-level loop over the rows of `pname`, placed before `before_line`, that leaves the process when the length of a row
+    differs from the length of row `r_ref` (every row from 0 or 1 up to the last is compared).  Bounds and lengths are seen
+    through single-definition locals and once-assigned members."""
+    if fn.body.get('k') != 'Compound':
+        return False
+    top = top if top is not None else top_level_assignments(fn)
+    txt = lambda e: show(resolve_scalar(e, g, top)).replace(' ', '')
+    for lp in fn.body['body']:
+        if lp['k'] != 'For' or (lp.get('l') or 0) >= before_line or lp.get('cond') is None:
+            continue
+        init = lp.get('init')
+        if not (init and init['k'] == 'Decl' and len(init['decls']) == 1 and init['decls'][0].get('init') is not None):
+            continue
+        cname = init['decls'][0]['name']
+        start = strip_casts(init['decls'][0]['init'])
+        if not (start.get('k') == 'Lit' and start.get('v') in ('0', '1')):
+            continue
+        if start['v'] == '1' and r_ref != '0':
+            continue
+        c0 = strip_casts(lp['cond'])
+        if not (c0.get('k') == 'Bin' and c0.get('op') in ('<', '!=') and show(strip_casts(c0['lhs'])) == cname and txt(c0['rhs']) == '%s.size()' % pname):
+            continue
+        body = lp['body']
+        stmts = body['body'] if body['k'] == 'Compound' else [body]
+        for s_ in stmts:
+            if s_['k'] != 'If' or not g.always_exits(s_['then']):
+                continue
+            c = strip_casts(s_['cond'])
+            neg = False
+            if c.get('k') == 'Un' and c.get('op') == '!':
+                neg, c = True, strip_casts(strip(c['e']))
+            if c.get('k') != 'Bin' or c.get('op') != ('==' if neg else '!='):
+                continue
+            sides = {txt(c['lhs']), txt(c['rhs'])}
+            if sides == {'%s[%s].size()' % (pname, cname), '%s[%s].size()' % (pname, r_ref)}:
+                return True
+    return False
 
 
 def uniform_flags(fn, pname, before_line):
